@@ -137,7 +137,9 @@ class CSSNamespaceRule(cssrule.CSSRule):
             def _ident(expected, seq, token, tokenizer=None):
                 # the namespace prefix, optional
                 if 'prefix or uri' == expected:
-                    new['prefix'] = self._tokenvalue(token)
+                    # a prefix is case-sensitive but may contain escapes
+                    new['prefix'] = css_parser.helper.unescape(
+                        self._tokenvalue(token))
                     seq.append(new['prefix'], 'prefix')
                     return 'uri'
                 else:
